@@ -313,9 +313,11 @@ class Lexer(ITokenizer):
 			if index == -1:
 				break
 
-			prev = max(end, index - 1)
+			# 閉じ引用符の直前に連続するバックスラッシュが奇数個の場合のみ、エスケープされた引用符と見做す
+			body = source[begin + len(pair['open']):index]
+			escaped = (len(body) - len(body.rstrip('\\'))) % 2 == 1
 			end = index + len(pair['close'])
-			if not (source[prev] == '\\'):
+			if not escaped:
 				break
 
 		value = source[begin:end]
